@@ -611,6 +611,53 @@ def run(prog, rep, tier):
 
     r06_9(prog, rep)
     r06_10(prog, rep)
+    r06_11(prog, rep)
+
+
+def r06_11(prog, rep):
+    """"brotli compressed (RFC 7932)": every encoder of the compression writer is built so that it emits a standard stream -- `CompressorWriter::new(w, buf,
+    quality, lgwin)` with a constant window of 10..=24 bits, or `with_params` with parameters whose window is in that range and whose non-standard
+    switches (`large_window`, `catable`, `appendable`, `magic_number`, `use_dictionary`) are the constant `false` / untouched defaults. The project's own decoder
+    accepts the large-window extension silently, so no round trip notices it; an independent RFC 7932 decoder rejects the first byte."""
+    mla = prog.crates['mla']
+    n = 0
+    cnt = collections.Counter()
+    for body in mla.bodies:
+        for b in body.calls():
+            cn = cnorm(b.term)
+            if 'CompressorWriter' not in cn and 'BrotliCompress' not in cn and 'BrotliEncoder' not in cn:
+                continue
+            m = b.term.cmethod
+            if m in ('into_inner', 'flush', 'write', 'write_all', 'get_ref', 'get_mut', 'default'):
+                continue
+            n += 1
+            rep.fn(body)
+            key = 'R06.11|%s|%s#%d|standard-brotli-stream' % (body.nkey, m, cnt[(body.nkey, m)])
+            cnt[(body.nkey, m)] += 1
+            ok, why = False, 'encoder built through %s, whose output format is not established' % cn
+            if cn.endswith('CompressorWriter::new') and len(b.term.args) == 4:
+                lg = const_eval(body, b.term.args[3])
+                ok = lg is not None and 10 <= lg <= 24
+                why = 'CompressorWriter::new with window 2^%s' % lg if ok else 'CompressorWriter::new with a window of %s bits (RFC 7932 allows 10..=24)' % lg
+            elif cn.endswith('CompressorWriter::with_params') and len(b.term.args) == 3:
+                pe = deref_expr(body, expr_of(body, b.term.args[2]))
+                agg = None
+                if pe[0] in ('ref', 'place'):
+                    for (dbb, dsi, dk, dobj) in body.defs.get(pe[1][0], []):
+                        if dk == 'assign' and dobj.rv.r == 'aggregate' and (dobj.rv.j.get('adt') or '').endswith('BrotliEncoderParams'):
+                            agg = dobj.rv if agg is None else False
+                if agg:
+                    fl = agg.j['fields']
+                    vals = {f: const_eval(body, agg.ops[i]) if agg.ops[i].kind == 'const' or agg.ops[i].place is None or not agg.ops[i].place[1] else 'inherited' for i, f in enumerate(fl)}
+                    bad = [f for f in ('large_window', 'catable', 'appendable', 'magic_number', 'use_dictionary') if f in vals and vals[f] not in (0, 'inherited')]
+                    lg = vals.get('lgwin')
+                    lgok = lg == 'inherited' or (isinstance(lg, int) and 10 <= lg <= 24)
+                    ok = not bad and lgok
+                    why = 'with_params: standard switches, window %s' % lg if ok else 'with_params enables %s / window %s: the stream is not plain RFC 7932 brotli' % (', '.join(bad) or '-', lg)
+                else:
+                    why = 'with_params: the parameter block is not a literal built in this function'
+            rep.ob('R06.11', ok, key, why, body.loc(b.idx))
+    rep.floor('R06.11', n, 1, 'brotli encoder constructions')
 
 
 def r06_10(prog, rep):
